@@ -60,6 +60,12 @@ class Walker:
     def call_value(self, fn, node, st):
         return UNKNOWN
 
+    def member_value(self, fn, node, st):
+        return None
+
+    def ev_extra(self, fn, node, st):
+        return None
+
     # ------------------------------------------------------------------ evaluator
     def ev(self, fn, i, st):
         i = fn.strip(i)
@@ -79,15 +85,27 @@ class Walker:
             return UNKNOWN
         if k in ('ImplicitCastExpr', 'CXXStaticCastExpr', 'CStyleCastExpr', 'CXXFunctionalCastExpr'):
             return self.ev(fn, n['ch'][0], st)
+        if k == 'MemberExpr':
+            v = self.member_value(fn, n, st)
+            return v if v is not None else UNKNOWN
         if k == 'UnaryOperator' and n['op'] == '!':
             v = self.ev(fn, n['ch'][0], st)
             return ('c', 0 if v[1] else 1) if v[0] == 'c' else UNKNOWN
+        if k == 'BinaryOperator' and n['op'] in ('&&', '||'):
+            sc = st.data.get(('sc', st.depth, i))
+            if sc is not None:
+                return ('c', sc)
+            # not short-circuited on this path: the value is the right operand's
+            return self.ev(fn, n['ch'][1], st)
         if k == 'BinaryOperator' and n['op'] in ('==', '!='):
             a, b = self.ev(fn, n['ch'][0], st), self.ev(fn, n['ch'][1], st)
             if a[0] == 'c' and b[0] == 'c':
                 r = (a[1] == b[1])
                 return ('c', int(r if n['op'] == '==' else not r))
             return UNKNOWN
+        v = self.ev_extra(fn, n, st)
+        if v is not None:
+            return v
         if k in ('CallExpr', 'CXXMemberCallExpr', 'CXXOperatorCallExpr'):
             v = st.data.get(('ret', st.depth, i))
             return v if v is not None else UNKNOWN
@@ -181,8 +199,14 @@ class Walker:
                 self._finish(st, None, out)
                 return
             if blk.cond is not None and len(succ) == 2:
-                ci = cfg.econd(b)
+                ci = blk.cond
                 v = self.ev(fn, ci, st)
+                lop = None
+                if blk.term is not None:
+                    tn = fn.nodes[blk.term]
+                    if tn['k'] == 'BinaryOperator' and tn.get('op') in ('&&', '||') and fn.strip(ci) != blk.term:
+                        lop = (blk.term, tn['op'])
+                ci = self.effective(fn, ci, st)
                 taken = []
                 if v[0] == 'c':
                     taken = [0 if v[1] else 1]
@@ -193,18 +217,41 @@ class Walker:
                     return
                 for t, s in nexts[1:]:
                     st2 = st.copy()
-                    self._edge_fact(fn, ci, t == 0, st2)
-                    self.on_edge(fn, ci, t == 0, st2)
+                    self._take(fn, ci, t == 0, st2, lop)
                     self._walk(fn, cfg, s, 0, st2, visits, out)
                 t, s = nexts[0]
-                self._edge_fact(fn, ci, t == 0, st)
-                self.on_edge(fn, ci, t == 0, st)
+                self._take(fn, ci, t == 0, st, lop)
                 b, start = s, 0
                 continue
             live = [s for s in succ if s is not None]
             for s in live[1:]:
                 self._walk(fn, cfg, s, 0, st.copy(), visits, out)
             b, start = live[0], 0
+
+    def effective(self, fn, ci, st):
+        """the sub-expression whose truth value the branch really tests on this path (descends into the right
+        operand of && / || that were not short-circuited); None if the outcome was already decided"""
+        while True:
+            j = fn.strip(ci)
+            n = fn.nodes[j]
+            if n['k'] == 'BinaryOperator' and n.get('op') in ('&&', '||'):
+                if st.data.get(('sc', st.depth, j)) is not None:
+                    return None
+                ci = n['ch'][1]
+                continue
+            return j
+
+    def _take(self, fn, ci, truth, st, lop):
+        if lop is not None:
+            node, op = lop
+            st.data = copy.copy(st.data)
+            if (op == '||' and truth) or (op == '&&' and not truth):
+                st.data[('sc', st.depth, node)] = 1 if op == '||' else 0
+            else:
+                st.data.pop(('sc', st.depth, node), None)
+        if ci is not None:
+            self._edge_fact(fn, ci, truth, st)
+            self.on_edge(fn, ci, truth, st)
 
     def _edge_fact(self, fn, ci, truth, st):
         """record what a taken edge tells about a boolean local"""
